@@ -131,6 +131,14 @@ func init() {
 			s.assume(Eq(r, And(Ge(la, lb), eqs)))
 			return []*Term{r}
 		},
+		"os.Exit": func(vc *VC, s *State, call *ast.CallExpr, args []*Term) []*Term {
+			vc.prog.Assumed["os.Exit(n) terminates the process with status n"] = true
+			s.ghost["$exited"] = True
+			s.ghost["$exitcode"] = args[0]
+			vc.ghostTypes["$exited"] = types.Typ[types.Bool]
+			vc.ghostTypes["$exitcode"] = types.Typ[types.Int]
+			return nil
+		},
 		"strings.Split": func(vc *VC, s *State, call *ast.CallExpr, args []*Term) []*Term {
 			vc.prog.Assumed["strings.Split(s, sep) with non-empty sep: at least one piece; the last piece is s after the last occurrence of sep (s itself if sep does not occur)"] = true
 			T := types.NewSlice(types.Typ[types.String])
